@@ -30,10 +30,21 @@ claim('C05', 'Mixed: frames of the edit primitives proved (replace = functional 
 claim('C06', 'Mixed: the table invariant (every entry names a successor, every successor has an entry, keys preserved under position-wise renaming) is proved for '
       'SyntheticBranch.replace_jump_targets; assigned-before-use and in-range are decided per instance on every reachable (block, valuation) of the product '
       'exploration (bounded).', TB, PROOF_PLUS_BOUNDED, '5.C06')
+SRC_NOTE = ('CPython is the oracle; programs come from a seeded grammar-based generator plus hand-written ones, decision paths are enumerated per program; findings R8, R9a/b, '
+            'R14-R17 (known_findings.json) are identified by syntactic / front-end-CFG region predicates and are not re-reported')
+claim('C07', 'Bounded only (exploration): compiler correctness of source -> CFG -> restructured CFG -> source is not decidable by any contract within reach; the property-level contract '
+      '(same result or exception type and same sequence of external calls, or NotImplementedError) is evaluated on every enumerated decision path of every generated program.',
+      SRC_NOTE, 'property-level contract evaluated by differential execution against CPython over enumerated decision paths (bounded stand-in; no proof part)', '5.C07', category='exploration')
+claim('C08', 'Bounded only (exploration): a CFG interpreter written from the property statement is compared with CPython on every enumerated decision path of every generated program, '
+      'with operands that log and raise.', SRC_NOTE, 'property-level contract evaluated by differential execution (CFG interpreter vs CPython) over enumerated decision paths', '5.C08',
+      category='exploration')
 claim('C09', 'Mixed: the opcode classification is decided completely for the running interpreter (finite enumeration of dis.opmap against dis.hasjrel/hasjabs and '
       'opcode._inline_cache_entries); block partition/successor claims are checked on a corpus of standard-library code objects against an independent ground truth '
       '(bounded); contracts on FlowInfo/utils are being brought under proof.',
       TB + '; WFdis and A-uncond assumed about dis; only Python 3.12 is installed', 'finite case split over the interpreter\'s opcode table + ' + PROOF_PLUS_BOUNDED, '5.C09')
+claim('C10', 'Bounded only (exploration): static census of the regenerated tree against the restructured graph (every statement object once, every test once as an If.test, '
+      'synthetic assignments as a multiset, compiles, reserved names only) on every accepted generated program.', SRC_NOTE,
+      'property-level contract evaluated as a static census on the enumerated scope', '5.C10', category='exploration')
 claim('C11', 'Decided by a complete finite case split for the running interpreter: the dispatcher\'s isinstance chain (read from the current source) evaluated against the '
       'real class lattice for every subclass of ast.stmt, plus unconditional structural descent of every compound handler; the placement matrix and non-function '
       'inputs are executed (bounded).', 'the structural induction over the tree is stated, not mechanised; dispatch must remain an isinstance chain (otherwise the check '
